@@ -99,6 +99,9 @@ func genReg(r *Rng) Sx {
 				full = root
 			}
 			ops = append(ops, L(3, A(root), A(full), A(r.Pick([]string{"GET", "POST"}))))
+		case p < 92:
+			inst := strings.NewReplacer("{id}", "7", "{v}", "vv", "{k}", "kk").Replace
+			ops = append(ops, L(6, A(r.Pick([]string{"GET", "POST"})), A(inst(strings.TrimRight(root, "/")+r.Pick(regRels[:6])))))
 		default:
 			pat := r.Pick(regPlain)
 			if usedPlain[pat] && r.Pct(70) {
@@ -113,7 +116,11 @@ func genReg(r *Rng) Sx {
 	add := func(p string) {
 		if !seen[p] {
 			seen[p] = true
-			probes = append(probes, L(r.Intn(2), A(r.Pick([]string{"GET", "GET", "POST"})), A(p)))
+			entry := r.Intn(2)
+			if r.Pct(15) {
+				entry += 2 // a preflight (OPTIONS with Origin and Access-Control-Request-Method) through Dispatch / ServeHTTP
+			}
+			probes = append(probes, L(entry, A(r.Pick([]string{"GET", "GET", "POST"})), A(p)))
 		}
 	}
 	inst := func(t string) string { return strings.NewReplacer("{id}", "7", "{v}", "vv", "{k}", "kk").Replace(t) }
@@ -151,6 +158,9 @@ func runReg(raw Sx) (Sx, Sx) {
 		if router == 1 {
 			c.Router(restful.RouterJSR311{})
 		}
+		// a CORS filter without configured methods: what it tells a preflight is computed from the container's routes
+		cors := restful.CrossOriginResourceSharing{Container: c}
+		c.Filter(cors.Filter)
 		return c
 	}
 	mkWS := func(root string) *restful.WebService {
@@ -203,6 +213,13 @@ func runReg(raw Sx) (Sx, Sx) {
 				}
 			}()
 			switch sxInt(sxNth(op, 0)) {
+			case 6:
+				// a preflight asked in the middle of the history (its answer is not kept): what the filter learns
+				// here must not outlive the registrations that follow
+				hr, _ := http.NewRequest("OPTIONS", "http://h"+sxStr(sxNth(op, 2)), nil)
+				hr.Header.Set("Origin", "http://o.example")
+				hr.Header.Set("Access-Control-Request-Method", sxStr(sxNth(op, 1)))
+				c.Dispatch(httptest.NewRecorder(), hr)
 			case 0:
 				s := get(sxStr(sxNth(op, 1)))
 				for _, rx := range sxList(sxNth(op, 2)) {
@@ -297,6 +314,12 @@ func runReg(raw Sx) (Sx, Sx) {
 	ask := func(cc *restful.Container, pr Sx) Sx {
 		entry, method, path := sxInt(sxNth(pr, 0)), sxStr(sxNth(pr, 1)), sxStr(sxNth(pr, 2))
 		q := &Req{Method: method, Path: path}
+		preflight := entry >= 2
+		if preflight {
+			q.Method = "OPTIONS"
+			q.Set("Origin", "http://o.example")
+			q.Set("Access-Control-Request-Method", method)
+		}
 		rec := httptest.NewRecorder()
 		*marker = 0
 		status := 0
@@ -306,13 +329,17 @@ func runReg(raw Sx) (Sx, Sx) {
 					status = -1
 				}
 			}()
-			if entry == 0 {
+			if entry%2 == 0 {
 				cc.Dispatch(rec, q.HTTP())
 			} else {
 				cc.ServeHTTP(rec, q.HTTP())
 			}
 			status = rec.Code
 		}()
+		if preflight {
+			// fourth field: the methods the filter announces (compared between the history-built and the fresh container)
+			return L(status, *marker, A(rec.Header().Get("Location")), A(rec.Header().Get("Access-Control-Allow-Methods")))
+		}
 		return L(status, *marker, A(rec.Header().Get("Location")))
 	}
 	ha, fa := Ls{}, Ls{}
